@@ -95,7 +95,8 @@ pub fn selfcheck() -> Result<(), String> {
     let mut shape: Vec<(i32, i32)> = a.iter().map(|p| (p.1, p.2)).collect();
     shape.sort();
     let b = probe("N*m")?;
-    let ok = shape == vec![(-2, 0), (1, 3)] && b.len() == 2 && b.iter().any(|p| matches!(p.0, UKey::Derived(_))) && b.iter().any(|p| matches!(p.0, UKey::Base(_)));
+    let known = a.iter().chain(b.iter()).all(|p| crate::units::def_of_key(&p.0).is_some());
+    let ok = known && shape == vec![(-2, 0), (1, 3)] && b.len() == 2 && b.iter().any(|p| matches!(p.0, UKey::Derived(_))) && b.iter().any(|p| matches!(p.0, UKey::Base(_)));
     if ok {
         Ok(())
     } else {
